@@ -20,8 +20,9 @@ static char g_pool[4];
 static inline const CBlockIndex* nondet_index(void) { unsigned k = nondet_uint(); return k < 4 ? (const CBlockIndex*)&g_pool[k] : NULL; }
 static inline bool WorkComparator_stub(const CBlockIndex* a, const CBlockIndex* b) { return nondet_bool(); }
 static inline const CBlockIndex* FindMostWorkChain_stub(void) { g_fmw_calls = 1; g_last_fmw = nondet_index(); return g_last_fmw; }
-static inline bool ActivateBestChainStep_stub(const CBlockIndex* most_work, bool* fInvalidFound)      /* may move the tip, may find an invalid block, may fail */
-{ g_steps = 1; *fInvalidFound = nondet_bool(); g_tip = nondet_bool() ? g_tip : nondet_index(); return nondet_bool(); }
+typedef struct { size_t n; } ConnectedList;
+static inline bool ActivateBestChainStep_stub(const CBlockIndex* most_work, bool* fInvalidFound, ConnectedList* connected)      /* may move the tip, connect any number of blocks, find an invalid block, fail */
+{ g_steps = 1; connected->n = nondet_uint(); *fInvalidFound = nondet_bool(); g_tip = nondet_bool() ? g_tip : nondet_index(); return nondet_bool(); }
 static inline bool ReachedTarget_stub(void) { return nondet_bool(); }
 #define LOOP_ROUND \
     __CPROVER_assigns(pindexMostWork, pindexNewTip, blocks_connected, g_tip, g_steps, g_fmw_calls, g_last_fmw) \
